@@ -26,9 +26,30 @@ fn ledger_on() -> bool {
     LEDGER.try_with(|c| c.get()).unwrap_or(false)
 }
 
-thread_local! {
-    /// countdown to a panic inside `Tok::clone` (0 = disarmed)
-    pub static CLONE_PANIC: Cell<usize> = const { Cell::new(0) };
+/// countdown to a panic inside `clone` of a probe element (0 = disarmed); per process, one run at a time
+pub static CLONE_PANIC: std::sync::atomic::AtomicUsize = std::sync::atomic::AtomicUsize::new(0);
+
+fn clone_hook(id: u32) {
+    let _g = Flag::off();
+    // a scheduling point inside clone(): other threads may run while this one is "inside the clone"
+    yield_point(Pending::Probe);
+    emit(json!({"e":"CloneElem","t":cur_tid(),"id":id}));
+    let v = CLONE_PANIC.load(std::sync::atomic::Ordering::SeqCst);
+    if v > 0 {
+        CLONE_PANIC.store(v - 1, std::sync::atomic::Ordering::SeqCst);
+        if v == 1 {
+            panic!("probe: clone panics");
+        }
+    }
+}
+
+fn drop_hook(id: u32, ok: bool) {
+    let _g = Flag::off();
+    emit(json!({"e":"DropElem","t":cur_tid(),"id":id,"ok":ok}));
+    if id != 0 && id == DROP_PANIC_ID.load(std::sync::atomic::Ordering::Relaxed) && !std::thread::panicking() {
+        DROP_PANIC_ID.store(0, std::sync::atomic::Ordering::Relaxed);
+        panic!("probe: drop panics");
+    }
 }
 
 /// id of the element whose destructor panics (0 = none); per process, one run at a time
@@ -53,18 +74,7 @@ impl Tok {
 impl Clone for Tok {
     fn clone(&self) -> Self {
         if ledger_on() {
-            let _g = Flag::off();
-            emit(json!({"e":"CloneElem","t":cur_tid(),"id":self.id}));
-            let fire = CLONE_PANIC.with(|c| {
-                let v = c.get();
-                if v > 0 {
-                    c.set(v - 1);
-                }
-                v == 1
-            });
-            if fire {
-                panic!("probe: clone panics");
-            }
+            clone_hook(self.id);
         }
         Tok {
             id: self.id,
@@ -76,15 +86,26 @@ impl Clone for Tok {
 impl Drop for Tok {
     fn drop(&mut self) {
         if ledger_on() {
-            let _g = Flag::off();
-            emit(json!({"e":"DropElem","t":cur_tid(),"id":self.id,"ok":self.pad==0xA5A5_5A5A}));
-            if self.id != 0
-                && self.id == DROP_PANIC_ID.load(std::sync::atomic::Ordering::Relaxed)
-                && !std::thread::panicking()
-            {
-                DROP_PANIC_ID.store(0, std::sync::atomic::Ordering::Relaxed);
-                panic!("probe: drop panics");
-            }
+            drop_hook(self.id, self.pad == 0xA5A5_5A5A);
+        }
+    }
+}
+
+/// Probe element that owns heap memory (a leaked element is a leaked allocation).
+#[derive(Debug)]
+pub struct HTok {
+    pub id: u32,
+    pub b: Box<u32>,
+}
+impl HTok {
+    pub fn new(id: usize) -> Self {
+        HTok { id: id as u32, b: Box::new(id as u32) }
+    }
+}
+impl Drop for HTok {
+    fn drop(&mut self) {
+        if ledger_on() {
+            drop_hook(self.id, *self.b == self.id);
         }
     }
 }
@@ -162,17 +183,38 @@ impl ProbeCore {
 
 /// Owning probe iterator.  `revive` > 0 makes it a non-fused source: after its first `None` it yields
 /// `revive` further items (ids following the regular ones) before it is exhausted for good.
-pub struct ProbeIter {
-    pub items: VecDeque<Tok>,
+pub struct ProbeIter<E = Tok> {
+    pub items: VecDeque<E>,
     pub core: ProbeCore,
     pub revive: usize,
     pub next_id: usize,
     pub none_seen: bool,
 }
 
-impl Iterator for ProbeIter {
-    type Item = Tok;
-    fn next(&mut self) -> Option<Tok> {
+pub trait ProbeElem {
+    fn make(id: usize) -> Self;
+    fn ident(&self) -> u32;
+}
+impl ProbeElem for Tok {
+    fn make(id: usize) -> Self {
+        Tok::new(id)
+    }
+    fn ident(&self) -> u32 {
+        self.id
+    }
+}
+impl ProbeElem for HTok {
+    fn make(id: usize) -> Self {
+        HTok::new(id)
+    }
+    fn ident(&self) -> u32 {
+        self.id
+    }
+}
+
+impl<E: ProbeElem> Iterator for ProbeIter<E> {
+    type Item = E;
+    fn next(&mut self) -> Option<E> {
         self.core.enter();
         self.core.maybe_panic();
         let mut x = self.items.pop_front();
@@ -180,12 +222,12 @@ impl Iterator for ProbeIter {
             if self.none_seen && self.revive > 0 {
                 self.revive -= 1;
                 let _g = Flag::off();
-                x = Some(Tok::new(self.next_id));
+                x = Some(E::make(self.next_id));
                 self.next_id += 1;
             }
             self.none_seen = true;
         }
-        self.core.exit(x.as_ref().map(|t| t.id as i64).unwrap_or(-1));
+        self.core.exit(x.as_ref().map(|t| t.ident() as i64).unwrap_or(-1));
         x
     }
     fn size_hint(&self) -> (usize, Option<usize>) {
@@ -253,6 +295,14 @@ impl Obs for Tok {
         (json!(id), -1)
     }
 }
+impl Obs for HTok {
+    fn obs(self, _: usize, _: usize, _: usize) -> (serde_json::Value, i64) {
+        let id = self.id;
+        let _q = Quiet::new(); // the caller disposes of what it received: not a ledger event
+        drop(self);
+        (json!(id), -1)
+    }
+}
 impl<'a> Obs for &'a Tok {
     fn obs(self, base: usize, stride: usize, len: usize) -> (serde_json::Value, i64) {
         (
@@ -272,5 +322,16 @@ impl<'a> Obs for &'a usize {
             w(*self),
             pidx(self as *const usize as usize, base, stride, len),
         )
+    }
+}
+
+/// Zero-sized probe element: no identity, so the value reported for a delivered element is the order
+/// of delivery within the run (equal to the position in sequential scripts).
+pub struct Zt;
+pub static ZSEQ: std::sync::atomic::AtomicUsize = std::sync::atomic::AtomicUsize::new(0);
+impl Obs for Zt {
+    fn obs(self, _: usize, _: usize, _: usize) -> (serde_json::Value, i64) {
+        let k = ZSEQ.fetch_add(1, std::sync::atomic::Ordering::SeqCst);
+        (json!(100 + k), -1)
     }
 }
